@@ -29,7 +29,9 @@ const STAKE_DENOM: &str = "ustake";
 const OTHER_DENOM: &str = "uother";
 /// bonded amounts are capped so that every stake/tokens_per_weight quotient and every sum of
 /// weights fits u64 by a wide margin (the u64 wrap of cw4-stake is C10's subject, finding F2)
-const MAX_BOND: u128 = 1 << 40;
+// stakes up to the u64 range: the quotient of one stake always fits u64 (larger bonds are refused since the
+// F2 fix), but the SUM of member weights can reach 2^64 - such a bond must abort, not wrap the total
+const MAX_BOND: u128 = u64::MAX as u128;
 
 #[derive(Clone, Debug, Serialize, Deserialize, PartialEq)]
 pub struct StakeCfg {
@@ -187,7 +189,8 @@ fn bond_amt() -> BoxedStrategy<BondAmt> {
         2 => Just(BondAmt::Abs(0)),
         2 => Just(BondAmt::Abs(1)),
         10 => (0u64..1000).prop_map(BondAmt::Abs),
-        2 => (0u64..=(MAX_BOND as u64)).prop_map(BondAmt::Abs),
+        2 => (0u64..=(1u64 << 40)).prop_map(BondAmt::Abs),
+        1 => prop_oneof![Just(1u64 << 62), Just(1u64 << 63), Just(u64::MAX / 3), Just(u64::MAX - 5), Just(u64::MAX)].prop_map(BondAmt::Abs),
         6 => (0u8..6).prop_map(BondAmt::Tpw),
         6 => (-1i8..=2).prop_map(BondAmt::ToMinBond),
     ]
@@ -247,6 +250,13 @@ pub fn case_strategy(prop: &str, tier: Tier) -> BoxedStrategy<Case> {
         20 => proptest::collection::btree_map(0u8..N_ADDR, prop_oneof![1 => Just(0u64), 10 => 0u64..100, 1 => edge_u64()], 0..=N_ADDR as usize)
             .prop_map(|m| m.into_iter().collect::<Vec<_>>()),
         2 => proptest::collection::vec((any_addr(), prop_oneof![4 => 0u64..100, 1 => edge_u64()]), 0..=6),
+        // an entry repeated exactly (same address, same weight), possibly with other entries in between
+        2 => (proptest::collection::vec((0u8..N_ADDR, 1u64..100), 1..=5), any::<u16>(), any::<u16>()).prop_map(|(mut v, a, b)| {
+            let e = v[vcore::amounts::pick(a, v.len())];
+            let at = vcore::amounts::pick(b, v.len() + 1);
+            v.insert(at, e);
+            v
+        }),
     ];
     let group = (admin_init(), members, blocks(group_op(prop), max_blocks, max_ops))
         .prop_map(|(admin, members, blocks)| Case { stake: None, admin, members, blocks })
